@@ -273,7 +273,7 @@ func emitAll(rep *mbt.Report, ems []*emission, st *stats, timeout time.Duration)
 		}
 		before := st.transitions
 		for _, tr := range trs {
-			if tr.Dup {
+			if e.exact && tr.Dup {
 				// the final state defines a name twice: a transient state, not a module LLVM accepts
 				st.dupSkipped++
 				continue
@@ -366,10 +366,9 @@ func Run(tier, replay string) {
 		"InstOps": `{"alloca", "use"}`, "RefTargets": `{"global", "func", "alloca"}`, "RefGlobals": "TRUE",
 		"FieldEdits": `{"GlobalAddrSpace", "GlobalContent", "FuncAddrSpace", "FuncVariadic", "AllocaAddrSpace", "AllocaElem"}`,
 		"TrackQueries": "TRUE", "StickyQueries": "TRUE"}
-	typesCfg["MaxCalls"] = "6"
 	if tier == "thorough" {
 		metadata["MaxCalls"] = "7"
-		typesCfg["MaxCalls"] = "7"
+		typesCfg["MaxCalls"] = "6"
 	}
 	ems = append(ems, &emission{label: "metadata", consts: metadata})
 	ems = append(ems, &emission{label: "types", consts: typesCfg})
